@@ -65,6 +65,8 @@ CONTRACTS = {
                       'ensures': {'unit': 'n2(q) == 1',
                                   'identity_at_zero': 'implies(angle == 0, q[0] == 1 and q[1] == 0 and q[2] == 0 and q[3] == 0)'},
                       'no_error': True},
+    'c24_integrate': {'params': dict(l=Q4, r=Q4, q=Q4, vel=V3), 'requires': {'unit': 'n2(q) == 1'},
+                      'ensures': dict(eqs('l', 'r', 4), unit='n2(l) == 1'), 'no_error': True},
     'c24_cross': {'params': dict(c=V3, d=V3, a=V3, b=V3),
                   'ensures': {'perp_a': 'dot3(c,0,a,0) == 0', 'perp_b': 'dot3(c,0,b,0) == 0',
                               'antisym': 'd[0] == -c[0] and d[1] == -c[1] and d[2] == -c[2]',
